@@ -231,13 +231,14 @@ Section Run.
   Definition step_obs (root root' : cfg) (o : oc) : pyval :=
     PTuple [o_oc o; o_cfg' root'; same_ids (ids_cfg [] root) (ids_cfg [] root')].
 
-  Fixpoint run_ops (ops : list (list pstep * xop leaf)) (w : world) (root : cfg) (dynamic : bool) (vs : list N) (fs : list (str * inode))
-    : list pyval :=
+  Fixpoint run_ops (ops : list (list pstep * xop leaf)) (w : world) (last : kept leaf) (root : cfg) (dynamic : bool) (vs : list N)
+           (fs : list (str * inode)) : list pyval :=
     match ops with
     | [] => []
     | (ps, o) :: r =>
-        let '(w1, root', oc1) := at_path ps w [] root dynamic vs fs o in
-        step_obs root root' oc1 :: run_ops r w1 root' dynamic vs fs
+        let '(w1, last1, root', oc1) :=
+          at_path_xs leaf lvalidate lto_python ldefault l_callable lflag (vrun vt) ps w last [] root dynamic vs fs o in
+        step_obs root root' oc1 :: run_ops r w1 last1 root' dynamic vs fs
     end.
 End Run.
 
@@ -247,7 +248,7 @@ Definition w0 : world := {| w_next := 0; w_calls := 0 |}.
 Definition run_configops (c : cocase) : pyval :=
   let '(vt, dynamic, vs, fs, kw, ops) := c in
   match ctor vt w0 dynamic vs fs kw with
-  | (w1, root, OOk) => PTuple [o_str "ok"; o_cfg' root; PList 0 (run_ops vt ops w1 root dynamic vs fs)]
+  | (w1, root, OOk) => PTuple [o_str "ok"; o_cfg' root; PList 0 (run_ops vt ops w1 None root dynamic vs fs)]
   | (_, _, o) => PTuple [o_oc o]
   end.
 
@@ -257,13 +258,14 @@ Definition run_totree (c : cocase * option str) : pyval :=
   let '((vt, dynamic, vs, fs, kw, ops), mask) := c in
   match ctor vt w0 dynamic vs fs kw with
   | (w1, root, OOk) =>
-      let final := (fix go (ops : list (list pstep * xop leaf)) (w : world) (root : cfg) : cfg :=
+      let final := (fix go (ops : list (list pstep * xop leaf)) (w : world) (last : kept leaf) (root : cfg) : cfg :=
                       match ops with
                       | [] => root
                       | (ps, o) :: r =>
-                          let '(w', root', _) := at_path_x leaf lvalidate lto_python ldefault l_callable lflag (vrun vt) ps w [] root dynamic vs fs o in
-                          go r w' root'
-                      end) ops w1 root in
+                          let '(w', last', root', _) :=
+                            at_path_xs leaf lvalidate lto_python ldefault l_callable lflag (vrun vt) ps w last [] root dynamic vs fs o in
+                          go r w' last' root'
+                      end) ops w1 None root in
       PTuple [o_rpy (to_tree leaf lto_basic l_sensitive py_strlen None fs final);
               o_rpy (to_tree leaf lto_basic l_sensitive py_strlen mask fs final)]
   | (_, _, o) => PTuple [o_oc o]
